@@ -18,7 +18,7 @@ def js_string(total_len):
 
 def points():
     return ["api-start-input", "api-startsync-input", "pass-output", "pass-end-output", "task-reply", "task-end-reply", "map-output", "parallel-output",
-            "callback-output", "definition-create", "definition-update", "name-create", "name-start", "history"]
+            "callback-output", "definition-create", "definition-update", "name-create", "name-start", "history", "history-retry"]
 
 def _case(args):
     point, size = args
@@ -123,6 +123,16 @@ def _case(args):
             w.run()
         got = ("accepted",) if st == 200 else ("refused", (js or {}).get("__type") if isinstance(js, dict) else None, st)
         want_err = "InvalidName"
+    elif point == "history-retry":
+        # the history also grows while one state is retried (no new StateEntered per attempt)
+        d = {"StartAt": "T", "States": {"T": {"Type": "Task", "Resource": FA + "f", "Retry": [{"ErrorEquals": ["E1"], "IntervalSeconds": 0, "MaxAttempts": 100000, "BackoffRate": 1.0}], "Next": "Z"}, "Z": Z}}
+        w, api = world({"m": d}, workers={"f": {"*": [["err", "E1", "again"]]}})
+        w.script.append({"op": "start", "machine": "m", "name": "e", "input": {}})
+        w.run(max_steps=size * 2)
+        status, err = terminal(w, exec_arn("m", "e"))
+        n = len(w.history(exec_arn("m", "e")) or [])
+        got = ("history", status, err, n)
+        want_err = None
     elif point == "history":
         # a machine that loops for ever: its history must not grow without bound
         d = {"StartAt": "A", "States": {"A": {"Type": "Pass", "Next": "C"}, "C": {"Type": "Choice", "Choices": [{"Variable": "$.stop", "BooleanEquals": True, "Next": "Z"}], "Default": "A"}, "Z": Z}}
@@ -145,7 +155,7 @@ def cases(tier):
         elif pt.startswith("name"):
             szs = [0, 1, 2, 79, 80, 81, 82, 160]
             lim = 80
-        elif pt == "history":
+        elif pt in ("history", "history-retry"):
             szs = [40000]
             lim = MAXH
         else:
@@ -164,10 +174,10 @@ def run(tier, seed):
     n = 0
     for (pt, s, lim), (got, want_err) in zip(cs, outs):
         n += 1
-        if pt == "history":
+        if pt in ("history", "history-retry"):
             _, status, err, hlen = got
             if status != "FAILED" or hlen > MAXH + 10:
-                sig = "quota|history"
+                sig = "quota|" + pt
                 cr.add(sig, "a looping execution ended %s (%s) with %d history events (limit %d)" % (status, err, hlen, MAXH), {"kind": "quota", "property": PROP, "signature": sig, "point": pt, "size": s}, size=1)
             continue
         lo = 1 if (pt.startswith("name") or pt.startswith("definition")) else 0
